@@ -28,7 +28,7 @@ RULE = ('(a) link store: _set_ast / _set_field / _unmake_fst_tree / _make_fst_tr
         '(_start, _stop) after every editing method vs the Lean model; (e) put_line_comment / put_src(action=None) / slice puts to Call, ClassDef, MatchClass / unpar() that overwrites '
         'parentheses in place, on real nodes with sentinel cache entries: every cache the model of the call site '
         '(_touchall(parents[,self]) resp. touch of every direct child) '
-        'clears must be cleared (superset allowed); (f) deterministic product run first: every virtual field (arguments._all with every marker shape, Call._args, ClassDef._bases, Dict._all, MatchMapping._all, MatchClass._attrs, Compare._all) x every span x cut / delete / copy / view cut / view delete, all queries on all nodes before, full check after, and the post-state must be a fixed point of the Lean renumbering loop; (d) random edit histories (replace / remove / '
+        'clears must be cleared (superset allowed); (f) deterministic product run first: every virtual field (arguments._all with every marker shape, Call._args, ClassDef._bases, Dict._all, MatchMapping._all, MatchClass._attrs, Compare._all) x every span x cut / delete / copy / view cut / view delete, all queries on all nodes before, full check after, and the post-state must be a fixed point of the Lean renumbering loop; (g) deterministic product: 16 list-field kinds x kept view kinds (whole field, [:2], [1:], [1:3], [1:1]) x edit through the kept view (cut, remove, del [:], append, prepend, insert, extend, del [0], none) x growth/shrink through another handle; after every step len / items / start_and_stop of the kept view vs a fresh view on a fresh parse (a whole-field view is always the whole field); kept views are also created and used inside the random histories; (d) random edit histories (replace / remove / '
         'insert / append / prepend / put_slice / put_src offset / put_src(action=None) on comment- and whitespace-only line tails / '
         'put_line_comment (add, replace shorter/longer/multi-byte, delete, full=True; statements ending 0..n enclosing blocks) / '
         'put_docstr (add, replace, delete, multi-line) / par / unpar (meaning-preserving calls only) / edits through windowed views; norm=True) on corpus '
@@ -54,7 +54,10 @@ TRUSTED = [
     'is_delimited_matchseq, the merged argument views (_all/_args/_bases)',
     'also checked after every edit: id(root) unchanged; every FST object held from before the edit is either still '
     'reachable from the root AST or dead (.a is None) or belongs to another tree (no zombie that still claims the root); '
-    'a windowed FSTView edited through itself is the window [start, stop+delta) of the current field',
+    'a windowed FSTView edited through itself is the window [start, stop+delta) of the current field; view objects kept '
+    'across edits are compared after every step with a fresh view on a fresh parse (whole-field view = whole field; bounded '
+    'view = list-window semantics: edits through it move the end by the length change, edits elsewhere only clip it; every '
+    'step observes - and so heals - every kept view)',
     'excluded input classes: raw-mode edits and put_src(action="reparse") (C10), edits that raise (C12), '
     'f-string interiors as edit targets; the window law is not evaluated when norm=True put a placeholder element '
     'back after a deletion through a view (e.g. `{*()}`): the property text does not say what the window is then',
@@ -833,9 +836,27 @@ def virt_links(ctx):
                                         + json.dumps(first, default=str)[:800])
 
 
+def _kview_worker(arg):
+    src, steps = arg
+    r = L.run_history(src, steps=steps, stop_on_fail=False, light=True)
+    if not r['fails']:
+        r['steps'] = [{'op': st['op']} for st in r['steps']]
+    return r
+
+
+def kept_views(ctx):
+    """deterministic product: field kinds x view kinds (whole / [:2] / [1:] / [1:3] / [1:1]) x edit through the kept view
+    x growth or shrink through another handle; after every step every kept view vs a fresh view on a fresh parse"""
+    prod = L.kview_product()
+    res = pmap(_kview_worker, prod)
+    _collect(ctx, res, judge=False)
+    ctx.notes['kept_view_product_cases'] = len(prod)
+
+
 def sweep(ctx):
     q = ctx.quick
     virt_links(ctx)
+    kept_views(ctx)
     progs = _programs(ctx, 170 if q else 2000, 6 if q else 100, extra=4 if q else 30)
     _histories(ctx, progs, 5 if q else 10)
 
